@@ -398,7 +398,50 @@ def b_extra(r, d, s):
     return d
 
 
-BUNDLE_MUTATORS = dict(b_orphan=b_orphan, b_badmember=b_badmember, b_type=b_type, b_anon_extra=b_anon_extra, b_anon_missing=b_anon_missing,
+def nc_ref_anon_sites(d):
+    """(site, path, member index, instance, port): a scalar anonymous-bundle member that is a whole Signal of the module, and a port of the same
+    width on another single instance, plainly connected and referred to by nobody - where `b_nc_ref_anon` can plant its fault"""
+    out = []
+    for s in bsites(d):
+        md, x, c = _bsite(d, s)
+        txt = json.dumps(md["insts"])
+        for p in _anons(c[1]):
+            a = _at(c, p)
+            for k, (n, sub) in enumerate(a[1]):
+                w = D.sig_width(md, sub[1]) if sub[0] == "sig" else None
+                if w is None:
+                    continue
+                for y in md["insts"]:
+                    if y is x or y["n"] > 0 or y.get("pair"):
+                        continue
+                    for cc in y["conns"]:
+                        if (dict(c01b.target_sports(d, y["of"])).get(cc[0]) == w and cc[1][0] in ("sig", "sl", "cat")
+                                and json.dumps(["ref", y["name"], cc[0]]) not in txt):
+                            out.append((s, p, k, y["name"], cc[0]))
+    return out
+
+
+def b_nc_ref_anon(r, d, s, where=None):
+    """a no-connect that is also referenced elsewhere - the reference is a MEMBER OF AN ANONYMOUS BUNDLE on a bundle-valued port
+    (whole, behind a full-width slice, or as the only part of a concatenation)"""
+    cands = [t for t in nc_ref_anon_sites(d) if t[0] == s] if where is None else [where]
+    if not cands:
+        return None
+    s, p, k, yname, q = r.choice(cands)
+    md, x, c = _bsite(d, s)
+    y = D.find_inst(md, yname)
+    for cc in y["conns"]:
+        if cc[0] == q:
+            cc[1] = ["nc", 9200, None]
+    ref = ["ref", yname, q]
+    u = r.random()
+    how = "whole" if u < 0.5 else "sliced" if u < 0.75 else "concatenated"
+    _at(c, p)[1][k][1] = ref if how == "whole" else ["sl", ref, ["s", None, None, None]] if how == "sliced" else ["cat", [ref]]
+    d["_tags"] = ["nc-ref-in-anon", "nc-ref-in-anon:" + how]
+    return d
+
+
+BUNDLE_MUTATORS = dict(b_nc_ref_anon=b_nc_ref_anon, b_orphan=b_orphan, b_badmember=b_badmember, b_type=b_type, b_anon_extra=b_anon_extra, b_anon_missing=b_anon_missing,
                        b_anon_width=b_anon_width, b_missing=b_missing, b_extra=b_extra)
 
 
@@ -452,6 +495,26 @@ def bundle_cases(tier, seed):
             if m is not None:
                 tags = m.pop("_tags", []) + ["top" if s[0] == d["top"] else "deep"]
                 designs.append(m); metas.append(dict(cls="b_anon_extra", kind="bundle-mutant", tags=tags))
+    # ... and base designs SELECTED for having an anonymous-bundle member beside a port it could refer to: the no-connect that is also
+    # referenced through an anonymous-bundle member, top and deep
+    k, found = 0, 0
+    while found < (6 if quick else 30) and k < 4000:
+        r = core.rng(seed, "C02F", "bbase-ncanon", k)
+        k += 1
+        d = c01b.gen_bdesign(r, size=r.choice([1, 2]))
+        ns = nc_ref_anon_sites(d)
+        if len(c01b.terminals(d)) > 90 or not ns:
+            continue
+        found += 1
+        designs.append(d); metas.append(dict(cls="bundle-base", kind="base", tags=["has-anon-member-beside-port"]))
+        deep = [t for t in ns if t[0][0] != d["top"]]
+        for j, pool in enumerate([ns, deep or ns]):
+            rr = core.rng(seed, "C02F", "b_nc_ref_anon_sel", k * 4 + j)
+            t = rr.choice(pool)
+            m = b_nc_ref_anon(rr, copy.deepcopy(d), t[0], where=t)
+            if m is not None:
+                tags = m.pop("_tags", []) + ["top" if t[0][0] == d["top"] else "deep"]
+                designs.append(m); metas.append(dict(cls="b_nc_ref_anon", kind="bundle-mutant", tags=tags))
     return designs, metas
 
 
@@ -555,6 +618,9 @@ def run_tie(run, tier, seed, bases, per_class):
     if not [i for i in bmut_ok if "flattened-path-name" in bmetas[i].get("tags", [])]:
         run.violation("C02F:coverage:anon-extra-flattened-path-name", "no anonymous bundle with an extra member named like the '_'-joined path of a "
                       "nested member of the port's Bundle was rejected by both the model and the implementation", dict(kind="coverage"), found_input=False)
+    if not [i for i in bmut_ok if "nc-ref-in-anon" in bmetas[i].get("tags", [])]:
+        run.violation("C02F:coverage:nc-ref-in-anon", "no design with a no-connected port that is also referred to by an anonymous-bundle member "
+                      "was rejected by both the model and the implementation", dict(kind="coverage"), found_input=False)
     if not bmut_ok:
         run.violation("C02F:coverage:bundles", "no bundle mutant was rejected by both the model and the implementation", dict(kind="coverage"), found_input=False)
     _report(run, "C02FB", "pipeline-model-bundles", bdesigns, bmetas, bouts, bcode, bstage, nb,
